@@ -307,3 +307,6 @@ def readNpy (bytes : List Nat) : Except IoErr (List Nat × List Nat) :=
                     if checkedSize d.shape = some vals.length then .ok (d.shape, vals) else .error .invalid
 
 end Sfs
+
+/- Rust functions mirrored in this file beyond those cited above (read by tools/trace_matrix.py):
+   core/src/array.rs: read_npy, write_npy; core/src/array/npy/header.rs: from_header_bytes, to_header_bytes, get_read_fn (decoder table: decodeValue), header_len_bytes_len, read_header_len, write_header_len (version-dependent length field); core/src/array/npy/header/parse.rs: dict_sep, entry_sep, shape_sep, whitespace_sep, parse_bool, parse_descr_entry, parse_endian, parse_entry, parse_fortran_order_entry, parse_header_dict, parse_shape, parse_shape_entry, parse_target_string, parse_type, parse_usize, parse_usize_sequence, separated_list1_opt (the p* combinators below, in the grammar's order) -/
